@@ -27,6 +27,10 @@
 (*          "endo": t = t_minus_1 + 1.0 and t_minus_1 = t(k-1)                           *)
 (*          "exo" : t = [0.0, 1.0, ...] in the exogenous section                         *)
 (*          "endok": t = 0.25*k + 2000.0  (a user time axis written with the step index) *)
+(*          "const": t = 1.0 (with n = 0 the block has this ONE variable)                 *)
+(*   n = 0  no simultaneous variable at all (A = << >>): the block is its time axis only  *)
+(*   cm     comments: 0 none | 1 a plain trailing comment | 2 a comment line with a       *)
+(*          Windows-style path (C:\Users\...) | 3 a comment line with \N and \x           *)
 (*   uk     + 0.25*k in the last equation (an ordinary equation reads the step index k)  *)
 (*   useT   + 0.25*t in the last equation                                                *)
 (*   tol    0: no Err_Tolerance line (parser default 1e-8) | 4: Err_Tolerance = 1e-4     *)
@@ -46,6 +50,8 @@
 (*          2: STEP, main, orig_vector and the parameter MaxIterations = 2.0 -           *)
 (*             attributes / methods / the unpack local of the generated class            *)
 (*          3: x, NEW_x, z and c0 - NEW_x is the Iterator's local for the new value of x *)
+(*          4: ITERATOR, y, z and c0 - ITERATOR is a placeholder GenerateFile replaces    *)
+(*             after the variable names have been written into the text                  *)
 (* The replay driver renders the text from these fields (harness/checks/c20.py).         *)
 EXTENDS Codegen, Json
 
@@ -55,7 +61,8 @@ CONSTANT Tier      \* "quick" | "thorough" | "tiny": which block set MC_Blocks i
 NameSets == << << "x", "y", "z", "c0" >>,
                << "err", "new_vector", "in_vec", "cnt" >>,
                << "STEP", "main", "orig_vector", "MaxIterations" >>,
-               << "x", "NEW_x", "z", "c0" >> >>
+               << "x", "NEW_x", "z", "c0" >>,
+               << "ITERATOR", "y", "z", "c0" >> >>
 VarName(o, i) == NameSets[o.nm + 1][i]
 ParamName(o) == NameSets[o.nm + 1][4]
 MC_MathNames == {"sqrt", "exp", "log", "floor", "pi", "tanh", "sinh", "cosh", "atan2", "log1p", "expm1", "log2", "hypot", "e", "tau", "erf", "copysign", "degrees", "gamma", "trunc", "fabs"}
@@ -84,7 +91,8 @@ OffDiag(o, i) ==
         idx == SelectSeq([ j \in 1..n |-> j ], LAMBDA j : j # i /\ A[i][j] # 0)
     IN [ q \in 1..Len(idx) |-> VarName(o, idx[q]) ]
 
-Last(o) == VarName(o, o.n)
+Last(o) == IF o.n = 0 THEN "none" ELSE VarName(o, o.n)
+TolText(o) == CASE o.tol = 0 -> "1e-8" [] o.tol = 4 -> "1e-4" [] o.tol = 100 -> "1.0" [] o.tol = 200 -> "2.0"
 LagName(o) == "LAG_" \o Last(o)
 Lag2Name(o) == "LAG2_" \o Last(o)
 LagBName(o) == "LAGB_" \o Last(o)
@@ -106,7 +114,8 @@ MkBlock(o) ==
                  \o Opt(o.al, << [name |-> "INC", reads |-> << Last(o) >>] >>)
                  \o Opt(o.cst = 2, << [name |-> ParamName(o), reads |-> << >>] >>)
                  \o Opt(o.userT = "endo", << [name |-> "t", reads |-> << "t_minus_1" >>] >>)
-                 \o Opt(o.userT = "endok", << [name |-> "t", reads |-> << "k" >>] >>),
+                 \o Opt(o.userT = "endok", << [name |-> "t", reads |-> << "k" >>] >>)
+                 \o Opt(o.userT = "const", << [name |-> "t", reads |-> << >>] >>),
       lagged |-> LET l1 == [name |-> LagName(o), of |-> Last(o)]
                      l2 == [name |-> Lag2Name(o), of |-> LagName(o)]
                      lb == [name |-> LagBName(o), of |-> LagName(o)]
@@ -122,7 +131,8 @@ MkBlock(o) ==
                  \o Opt(o.userT = "exo", << [name |-> "t", len |-> o.maxTime + 1, reads |-> << >>] >>),
       ics    |-> Opt(o.ic, << Last(o) >>),
       foundT |-> o.userT # "none",
-      reduce |-> o.red ]
+      reduce |-> o.red,
+      tolText |-> TolText(o) ]
 
 ----------------------------------------------------------------------------
 (* coefficient matrices, in quarters *)
@@ -151,7 +161,7 @@ BaseMats == { << << 0, 1 >>, << 2, 0 >> >>,
 OptsOverN(M, MT, Tols, Lags, Nms) ==
     { [n |-> Len(A), A |-> A, lag |-> l, ic |-> c, exo |-> e, cst |-> s, userT |-> u, useT |-> w,
        tol |-> tl, maxTime |-> mt, nm |-> nm, fn |-> IF s = 1 THEN 1 ELSE 0, tw |-> 0, red |-> FALSE,
-       al |-> FALSE, ps |-> 0, uk |-> FALSE] :
+       al |-> FALSE, ps |-> 0, uk |-> FALSE, cm |-> 0] :
       A \in M, l \in Lags, c \in BOOLEAN, e \in 0..2, s \in 0..2, u \in {"none", "endo", "exo"},
       w \in BOOLEAN, tl \in Tols, mt \in MT, nm \in Nms }
 OptsOver(M, MT, Tols) == OptsOverN(M, MT, Tols, 0..2, {0})
@@ -177,7 +187,7 @@ OwnNameProfiles ==
       [lag |-> 0, ic |-> FALSE, exo |-> 0, cst |-> 0, userT |-> "endo", useT |-> FALSE, tol |-> 0, nm |-> 3] }
 ProfilesOf(P, M, MT) ==
     { [n |-> Len(A), A |-> A, maxTime |-> mt] @@ pr
-      @@ [fn |-> IF pr.cst = 1 THEN 1 ELSE 0, tw |-> 0, red |-> FALSE, al |-> FALSE, ps |-> 0, uk |-> FALSE] :
+      @@ [fn |-> IF pr.cst = 1 THEN 1 ELSE 0, tw |-> 0, red |-> FALSE, al |-> FALSE, ps |-> 0, uk |-> FALSE, cm |-> 0] :
       A \in M, pr \in P, mt \in MT }
 (* math functions and constants, builtins: every constant spelling with / without the exogenous list *)
 (* expression that uses math names, injected and user-defined time axis; every time-trend wrapper     *)
@@ -224,6 +234,31 @@ KProfiles ==
     { [lag |-> l, ic |-> FALSE, exo |-> x, cst |-> 0, userT |-> u, useT |-> w, tol |-> 0, nm |-> 0,
        red |-> r, uk |-> FALSE] :
       l \in {0, 1}, x \in {0, 1}, w \in BOOLEAN, r \in BOOLEAN, u \in {"none", "endo", "exo"} } : TRUE }
+(* blocks without any simultaneous variable: the time axis alone (one variable when it is a constant *)
+(* or an exogenous list; two with t_minus_1 or the step index)                                        *)
+Mats0 == { << >> }
+AxisProfiles ==
+    { [lag |-> 0, ic |-> FALSE, exo |-> 0, cst |-> 0, userT |-> u, useT |-> FALSE, tol |-> tl, nm |-> 0, red |-> r] :
+      u \in {"const", "exo", "endo", "endok", "none"}, tl \in {0, 4}, r \in BOOLEAN }
+(* comments in the block text (all of them inert for the parser) *)
+CommentProfiles ==
+    { [lag |-> 1, ic |-> TRUE, exo |-> x, cst |-> 2, userT |-> u, useT |-> TRUE, tol |-> 0, nm |-> 0, cm |-> c] :
+      x \in {0, 2}, u \in {"none", "endo"}, c \in 1..3 }
+(* a variable named like a placeholder of the template: must be refused *)
+PlaceholderProfiles ==
+    { [lag |-> l, ic |-> FALSE, exo |-> 1, cst |-> 2, userT |-> u, useT |-> TRUE, tol |-> 0, nm |-> 4] :
+      l \in {0, 1}, u \in {"none", "endo"} }
+(* first blocks of a two-block history on one generator object: every per-block attribute differs from *)
+(* what the second blocks have (tolerance 1.0 / 1e-4, horizon 5 / 2, chained lags, k, a parameter,     *)
+(* exogenous lists, an alias, reduction)                                                               *)
+FirstProfiles ==
+    { [lag |-> 4, ic |-> TRUE, exo |-> 2, cst |-> 2, userT |-> "none", useT |-> TRUE, tol |-> 100, nm |-> 0,
+       red |-> TRUE, al |-> TRUE, uk |-> TRUE, maxTime |-> 5],
+      [lag |-> 1, ic |-> TRUE, exo |-> 3, cst |-> 1, userT |-> "endo", useT |-> TRUE, tol |-> 4, nm |-> 0,
+       fn |-> 10, maxTime |-> 2] }
+FirstBlocksAll == { MkBlock([n |-> 2, A |-> << << 0, 1 >>, << 2, 0 >> >>] @@ pr
+                            @@ [fn |-> 0, tw |-> 0, red |-> FALSE, al |-> FALSE, ps |-> 0, uk |-> FALSE, cm |-> 0]) :
+                    pr \in FirstProfiles }
 Base2 == { << << 0, 1 >>, << 2, 0 >> >> }
 OwnNameMats == Mats1 \cup Base2 \cup { << << 0, 1, 1 >>, << 1, 0, 1 >>, << 1, 1, 0 >> >> }
 
@@ -248,6 +283,9 @@ BlocksQuick(mt) ==
     \cup { MkBlock(o) : o \in ProfilesOf(TolProfiles, Mats1 \cup Base2, {mt}) }
     \cup { MkBlock(o) : o \in ProfilesOf(ParamProfiles, ParamMats, {mt}) }
     \cup { MkBlock(o) : o \in ProfilesOf(KProfiles, Mats1 \cup Base2, {mt}) }
+    \cup { MkBlock(o) : o \in ProfilesOf(AxisProfiles, Mats0, {mt}) }
+    \cup { MkBlock(o) : o \in ProfilesOf(CommentProfiles, Mats1 \cup Base2, {mt}) }
+    \cup { MkBlock(o) : o \in ProfilesOf(PlaceholderProfiles, Mats1 \cup Base2, {mt}) }
 
 (* thorough: every option combination (lags 0-2) on every 1x1 / 2x2 / designed 3x3 matrix (the      *)
 (* non-default tolerance on the 1x1, base and designed 3x3 matrices only), and the                  *)
@@ -268,6 +306,9 @@ BlocksThorough(mt) ==
     \cup { MkBlock(o) : o \in ProfilesOf(TolProfiles, Mats1 \cup BaseMats, {mt, 6}) }
     \cup { MkBlock(o) : o \in ProfilesOf(ParamProfiles, Mats1 \cup ParamMats \cup Mats3Few, {mt, 6}) }
     \cup { MkBlock(o) : o \in ProfilesOf(KProfiles, Mats1 \cup BaseMats \cup Mats3Few, {mt, 6}) }
+    \cup { MkBlock(o) : o \in ProfilesOf(AxisProfiles, Mats0, {mt, 1, 6}) }
+    \cup { MkBlock(o) : o \in ProfilesOf(CommentProfiles, Mats1 \cup BaseMats, {mt, 6}) }
+    \cup { MkBlock(o) : o \in ProfilesOf(PlaceholderProfiles, Mats1 \cup BaseMats, {mt}) }
 
 (* a handful of blocks for the as-found counterexamples *)
 BlocksTiny(mt) ==
@@ -276,6 +317,19 @@ BlocksTiny(mt) ==
     \cup { MkBlock(o) : o \in ProfilesOf({ pr \in MathProfiles : pr.fn \in {0, 2, 10} }, Base2, {mt}) }
     \cup { MkBlock(o) : o \in ProfilesOf({ pr \in RedProfiles : pr.lag = 1 }, Base2, {mt}) }
     \cup { MkBlock(o) : o \in ProfilesOf({ pr \in KProfiles : pr.lag = 1 /\ pr.exo = 1 }, Base2, {mt}) }
+    \cup { MkBlock(o) : o \in ProfilesOf(AxisProfiles, Mats0, {mt}) }
+    \cup { MkBlock(o) : o \in ProfilesOf(PlaceholderProfiles, Base2, {mt}) }
+
+(* second blocks of the two-block histories: the profile blocks on the 1x1, 2x2 base and designed 3x3 *)
+(* matrices (quick) / on every matrix, the step-index and time-axis blocks (thorough)                  *)
+MC_FirstBlocks == FirstBlocksAll
+MC_SecondBlocks ==
+    CASE Tier = "quick"    -> { MkBlock(o) : o \in ProfilesOver(Mats1 \cup Base2 \cup Mats3Few, {3}) }
+                               \cup { MkBlock(o) : o \in ProfilesOf(AxisProfiles, Mats0, {3}) }
+      [] Tier = "thorough" -> { MkBlock(o) : o \in ProfilesOver(Mats1 \cup Mats2 \cup Mats3Few, {3}) }
+                               \cup { MkBlock(o) : o \in ProfilesOf(KProfiles, Mats1 \cup BaseMats, {3}) }
+                               \cup { MkBlock(o) : o \in ProfilesOf(AxisProfiles, Mats0, {3, 6}) }
+      [] Tier = "tiny"     -> { MkBlock(o) : o \in ProfilesOver(Base2, {2}) }
 
 MC_Blocks == CASE Tier = "quick"    -> BlocksQuick(3)
                [] Tier = "thorough" -> BlocksThorough(3)
@@ -285,6 +339,6 @@ MC_Blocks == CASE Tier = "quick"    -> BlocksQuick(3)
 (* every maximal behaviour (= one block carried MaxGenerations times through generation, import and *)
 (* run on one generator object) is printed once                                                    *)
 Terminal == (phase = "done" /\ ngen = MaxGenerations) \/ phase = "rejected"
-Emit == Terminal => PrintT(<< "BEH", ToJson([block |-> blk, steps |-> mod.STEP, status |-> mod.status, generations |-> ngen,
+Emit == Terminal => PrintT(<< "BEH", ToJson([first |-> first, block |-> blk, steps |-> mod.STEP, status |-> mod.status, generations |-> ngen,
                                              rejected |-> phase = "rejected"]) >>)
 =============================================================================
